@@ -19,14 +19,26 @@ class Analysis:
         self._ready = False
         self.incomplete = []
         self.renamed = model.canonicalise_names(self.prog)
+        self.broken = {}        # container -> G-ANCHOR note: the behavioural model does not fit its representation on this tree
         for name in frontend.CONTAINERS:
             cm = self.prog.classes[name]
-            self.roles[name] = model.Roles(cm, lenient=lenient)
+            # the roles are built leniently; a container whose anchors do not fit makes exactly the checks that look at it stop
+            # (classes()), not the ones that speak of other containers
+            self.roles[name] = model.Roles(cm, lenient=True)
+            if self.roles[name].anchor_problems and not lenient:
+                self.broken[name] = 'G-ANCHOR: ' + '; '.join(self.roles[name].anchor_problems)
             self.roles[name].inert = set()
             self.evals[name] = symex.Evaluator(self.prog, cm)
         for name in frontend.CONTAINERS:
-            self.roles[name].inert = self.compute_inert(self.prog.classes[name], self.roles[name])
-            self.roles[name].capacity_copies = self.capacity_copies(self.prog.classes[name])
+            try:
+                self.roles[name].inert = self.compute_inert(self.prog.classes[name], self.roles[name])
+                self.roles[name].capacity_copies = self.capacity_copies(self.prog.classes[name])
+            except frontend.AnalysisIncomplete:
+                raise
+            except Exception:
+                if name not in self.broken:
+                    raise
+                self.roles[name].capacity_copies = set()
         self._ready = True
 
     def capacity_copies(self, cm):
@@ -128,6 +140,9 @@ class Analysis:
 
     def classes(self, names=None):
         self.touched |= set(names or frontend.CONTAINERS)
+        bad = [self.broken[n] for n in (names or frontend.CONTAINERS) if n in self.broken]
+        if bad and not self.lenient:
+            raise frontend.AnalysisIncomplete('; '.join(bad))
         for name in (names or frontend.CONTAINERS):
             yield self.prog.classes[name], self.roles[name]
 
